@@ -177,6 +177,12 @@ func (s *JSONDB) ReadStatusToday(dagFile string) (*model.Status, error) {
 		}
 		lastErr = err
 	}
+	if errors.Is(lastErr, io.EOF) {
+		// None of the files holds a complete status: the runs were killed
+		// before they recorded anything, which is no status data, not a
+		// failure of the query.
+		return nil, persistence.ErrNoStatusData
+	}
 	return nil, lastErr
 }
 
